@@ -117,8 +117,11 @@ def run(cx):
                 r'^Hasher::write_u8\(arg2,cast<u8>\(slice::len\(' + LBL + r'\)\)\)$',
                 r"^<Iter<'a;T> as Iterator>::for_each\(slice::iter\(" + LBL + r'\),closure:<Name as Hash>::hash::\{closure@for_each#0\}\)$']
         ok = len(fed) == len(want) and all(re.search(w, f_) for w, f_ in zip(want, fed))
-        cx.check('C04.T1', ok, h.path, 'calls', 'hash-inputs=is_fqdn+per-label(length,octets)', str(fed))
-    hc = cx.fn('C04.T1', '<hickory_proto::rr::domain::name::Name as core::hash::Hash>::hash::{closure@for_each#0}')
+        # loop form of the octet feed: `for &b in label { state.write_u8(b.to_ascii_lowercase()) }`
+        want_loop = want[:2] + [r"^Hasher::write_u8\(arg2,num::to_ascii_lowercase\(<Iter<'a;T> as Iterator>::next\((?:slice::iter\()?" + LBL + r"\)?\)@Some\.0\)\)$"]
+        loop_form = len(fed) == len(want_loop) and all(re.search(w, f_) for w, f_ in zip(want_loop, fed))
+        cx.check('C04.T1', ok or loop_form, h.path, 'calls', 'hash-inputs=is_fqdn+per-label(length,octets)', str(fed))
+    hc = None if (h and loop_form and not ok) else cx.fn('C04.T1', '<hickory_proto::rr::domain::name::Name as core::hash::Hash>::hash::{closure@for_each#0}')
     if hc:
         calls = [shorten(hc.term_call(t, 0)) for bi, c, t in prog.calls_of(hc)]
         cx.check('C04.T1', calls[-1:] == ['Hasher::write_u8(^arg2,num::to_ascii_lowercase(arg2))'] and len(calls) == 2, hc.path, 'calls', 'hash-octet-lowercased', str(calls))
